@@ -2,10 +2,13 @@ package main
 
 import (
 	"fmt"
+	"runtime"
+	"strings"
 	"sync"
 	"sync/atomic"
 	"time"
 
+	btapb "cloud.google.com/go/bigtable/admin/apiv2/adminpb"
 	btpb "cloud.google.com/go/bigtable/apiv2/bigtablepb"
 	"github.com/fullstorydev/emulators/bigtable/bttest"
 
@@ -22,16 +25,17 @@ type c18RowState struct {
 	Present bool
 	Tag     string // value of the three data columns (always written together)
 	Log     string // value of the append column ("" = column absent)
+	G       string // "" or the family (g0, g1, ... created while the round is running) in which the write also set c0 = Tag
 	call    int64  // logical stamps of the write that produced this state
 	ret     int64
 }
 
 func (s c18RowState) same(o c18RowState) bool {
-	return s.Present == o.Present && s.Tag == o.Tag && s.Log == o.Log
+	return s.Present == o.Present && s.Tag == o.Tag && s.Log == o.Log && s.G == o.G
 }
 
 func runC18(run *common.Run) {
-	run.Rule = "case = one ReadRows scan (full table or a key range; several response messages, so the table lock is released several times) running concurrently with 6 writer goroutines (three quarters of their writes aimed just ahead of a scan's current position) that each own a disjoint set of rows and rewrite all columns with one version tag, delete, re-create and read-modify-write-append them; 10% of rows are never written. Every row state and every scan carries logical call/return stamps from one atomic counter. Oracle per scan: status OK, keys strictly ascending without duplicates, every returned row is exactly one of the states that row had between scan start and scan end, a missing row must have had an 'absent' state in that window, unwritten rows exact. A PRNG-chosen subset of the scan's lock releases is held for a bounded time (hook ReadRows.unlocked). Non-trivial = scan during which at least one row had more than one admissible state; distinct by scan."
+	run.Rule = "case = one ReadRows scan (full table or a key range; several response messages, so the table lock is released several times) running concurrently with 6 writer goroutines (three quarters of their writes aimed just ahead of a scan's current position) that each own a disjoint set of rows and rewrite all columns with one version tag, delete, re-create and read-modify-write-append them; 10% of rows are never written. A third of the scans (half in rounds with family creation) ask for three disjoint ranges plus explicit keys; in every second round new column families are created one after the other while the scans run, and every write sets a cell in the newest one together with its cells in the old family. Every row state and every scan carries logical call/return stamps from one atomic counter. Oracle per scan: status OK, keys strictly ascending without duplicates, every returned row is exactly one of the states that row had between scan start and scan end, a missing row must have had an 'absent' state in that window, unwritten rows exact. A PRNG-chosen subset of the scan's lock releases is held for a bounded time (hook ReadRows.unlocked). Non-trivial = scan during which at least one row had more than one admissible state; distinct by scan."
 	run.Assumptions = []string{"leveldb-mem and leveldb-disk engines only (the btree engine documents that it does not offer this)", "per-row single-writer ownership makes each row's state sequence exactly known"}
 	rounds := run.N(4, 60)
 	scansPerRound := run.N(10, 25)
@@ -84,10 +88,20 @@ func c18Round(run *common.Run, round int, engine string, nscans int) {
 	defer srv.Close(true)
 	table := drive.MustTable(srv.Admin, "t", "f")
 	key := func(i int) string { return fmt.Sprintf("row%05d", i) }
-	dataMuts := func(tag string) []model.Mut {
-		return []model.Mut{{Kind: model.DelRow},
+	dataMutsG := func(tag string, withG string) []model.Mut {
+		m := []model.Mut{{Kind: model.DelRow},
 			{Kind: model.SetCell, Fam: "f", Qual: "c0", TS: 1000, Val: tag}, {Kind: model.SetCell, Fam: "f", Qual: "c1", TS: 1000, Val: tag}, {Kind: model.SetCell, Fam: "f", Qual: "c2", TS: 1000, Val: tag}}
+		if withG != "" {
+			m = append(m, model.Mut{Kind: model.SetCell, Fam: withG, Qual: "c0", TS: 1000, Val: tag})
+		}
+		return m
 	}
+	dataMuts := func(tag string) []model.Mut { return dataMutsG(tag, "") }
+	// every second round column families g0, g1, ... are created one after the other while scans are running; a write
+	// issued after the creation of g<k> was acknowledged sets a cell in the newest family together with its three
+	// cells in f (one request: all four or none are visible)
+	var gCur int32 = -1
+	createG := (round/2)%2 == 1
 	var clock common.LogicalClock
 	// history[i] = states of row i in order; guarded by the owner (single writer), read after all goroutines finished
 	history := make([][]c18RowState, N)
@@ -161,8 +175,12 @@ func c18Round(run *common.Run, round int, engine string, nscans int) {
 				switch {
 				case x < 4 || !cur.Present:
 					tag := fmt.Sprintf("w%d.%d", w, n)
-					next = c18RowState{Present: true, Tag: tag}
-					st = drive.MutateRow(data, table, key(i), dataMuts(tag))
+					withG := ""
+					if g := atomic.LoadInt32(&gCur); g >= 0 {
+						withG = fmt.Sprint("g", g)
+					}
+					next = c18RowState{Present: true, Tag: tag, G: withG}
+					st = drive.MutateRow(data, table, key(i), dataMutsG(tag, withG))
 				case x < 8:
 					next = c18RowState{}
 					st = drive.MutateRow(data, table, key(i), []model.Mut{{Kind: model.DelRow}})
@@ -180,8 +198,42 @@ func c18Round(run *common.Run, round int, engine string, nscans int) {
 			}
 		}(w)
 	}
+	if createG {
+		wg.Add(1)
+		go func() {
+			defer wg.Done()
+			// a new family every time the scans have advanced by a few hundred rows
+			var last int64
+			for g := int32(0); g < 12; g++ {
+				for {
+					select {
+					case <-stop:
+						return
+					default:
+					}
+					pos := atomic.LoadInt64(&scanPos[0]) + atomic.LoadInt64(&scanPos[1]) + atomic.LoadInt64(&scanPos[2])
+					if pos-last > 400 || last-pos > 400 {
+						last = pos
+						break
+					}
+					runtime.Gosched()
+				}
+				ctx, cancel := drive.Ctx()
+				_, err := srv.Admin.ModifyColumnFamilies(ctx, &btapb.ModifyColumnFamiliesRequest{Name: table, Modifications: []*btapb.ModifyColumnFamiliesRequest_Modification{{Id: fmt.Sprint("g", g), Mod: &btapb.ModifyColumnFamiliesRequest_Modification_Create{Create: &btapb.ColumnFamily{}}}}})
+				cancel()
+				if err != nil {
+					writeErr.Store("ModifyColumnFamilies(create g) failed: " + err.Error())
+					return
+				}
+				atomic.StoreInt32(&gCur, g)
+				run.Count("families_created_during_scans", 1)
+			}
+			run.Count("rounds_with_a_family_created_during_the_scans", 1)
+		}()
+	}
 	type scan struct {
-		lo, hi int // row index range [lo,hi]
+		lo, hi int      // row index range [lo,hi]
+		gaps   [][2]int // index intervals inside [lo,hi] that were not requested
 		S, E   int64
 		res    drive.ReadResult
 	}
@@ -213,6 +265,19 @@ func c18Round(run *common.Run, round int, engine string, nscans int) {
 				if lo != 0 || hi != N-1 {
 					req.Rows = &btpb.RowSet{RowRanges: []*btpb.RowRange{{StartKey: &btpb.RowRange_StartKeyClosed{StartKeyClosed: []byte(key(lo))}, EndKey: &btpb.RowRange_EndKeyClosed{EndKeyClosed: []byte(key(hi))}}}}
 				}
+				var gaps [][2]int
+				if sr.Chance(1, 3) || (createG && sr.Chance(1, 2)) {
+					// three disjoint ranges (five rows left out between them, so that the server cannot merge them into
+					// one) plus two explicit keys: one request, several iterations over the store
+					a := lo + (hi-lo)/3
+					b := lo + 2*(hi-lo)/3
+					rg := func(x, y int) *btpb.RowRange {
+						return &btpb.RowRange{StartKey: &btpb.RowRange_StartKeyClosed{StartKeyClosed: []byte(key(x))}, EndKey: &btpb.RowRange_EndKeyOpen{EndKeyOpen: []byte(key(y))}}
+					}
+					req.Rows = &btpb.RowSet{RowKeys: [][]byte{[]byte(key(hi)), []byte(key(b))}, RowRanges: []*btpb.RowRange{rg(b, hi), rg(lo, a-5), rg(a, b-5)}}
+					gaps = [][2]int{{a - 5, a - 1}, {b - 5, b - 1}}
+					run.Count("multi_range_scans", 1)
+				}
 				s := clock.Tick()
 				ctx, cancel := drive.Ctx()
 				res := drive.ReadRowsCtx(ctx, data, req, func(_ int, lastKey string) {
@@ -222,7 +287,7 @@ func c18Round(run *common.Run, round int, engine string, nscans int) {
 					}
 				})
 				cancel()
-				scans[k] = scan{lo: lo, hi: hi, S: s, E: clock.Tick(), res: res}
+				scans[k] = scan{lo: lo, hi: hi, gaps: gaps, S: s, E: clock.Tick(), res: res}
 			}
 		}(sc)
 	}
@@ -259,7 +324,22 @@ func c18Round(run *common.Run, round int, engine string, nscans int) {
 		}
 		multi, inside := 0, 0
 		bad := false
+		inGap := func(i int) bool {
+			for _, g := range sc.gaps {
+				if i >= g[0] && i <= g[1] {
+					return true
+				}
+			}
+			return false
+		}
 		for i := sc.lo; i <= sc.hi && !bad; i++ {
+			if inGap(i) {
+				if _, present := got[key(i)]; present {
+					fail(fmt.Sprintf("row %q was not requested", key(i)))
+					bad = true
+				}
+				continue
+			}
 			h := history[i]
 			// admissible states: produced by a write called before the scan ended, and not replaced by a write that returned before the scan started
 			var adm []c18RowState
@@ -283,12 +363,26 @@ func c18Round(run *common.Run, round int, engine string, nscans int) {
 			if present {
 				obs.Present = true
 				cols := map[string]string{}
+				gval := ""
 				for _, c := range row.Cells {
+					if strings.HasPrefix(c.Fam, "g") && c.Qual == "c0" && c.TS == 1000 {
+						if obs.G != "" {
+							fail(fmt.Sprintf("row %q has cells in two of the families created during the round (each write deletes the row first)", row.Key))
+							bad = true
+						}
+						obs.G = c.Fam
+						gval = c.Val
+						continue
+					}
 					if _, dup := cols[c.Qual]; dup || c.Fam != "f" || c.TS != 1000 && c.Qual != "log" {
 						fail(fmt.Sprintf("row %q has an impossible cell %s", row.Key, c))
 						bad = true
 					}
 					cols[c.Qual] = c.Val
+				}
+				if obs.G != "" && gval != cols["c0"] {
+					fail(fmt.Sprintf("torn row %s: the cell in family g and the cells in family f were written by one request but differ", row))
+					bad = true
 				}
 				obs.Tag, obs.Log = cols["c0"], cols["log"]
 				_, hasData := cols["c0"]
@@ -309,7 +403,7 @@ func c18Round(run *common.Run, round int, engine string, nscans int) {
 					ok = true
 				}
 				// a row deleted and then appended-to exists with only its log column
-				if st.Present == obs.Present && st.Tag == obs.Tag && st.Log == obs.Log {
+				if st.Present == obs.Present && st.Tag == obs.Tag && st.Log == obs.Log && st.G == obs.G {
 					ok = true
 				}
 			}
